@@ -3,6 +3,8 @@ import itertools
 
 import numpy as np
 
+import synth
+
 from vcore import clist, z, zlist
 
 TIE = 'Tie.C03'
@@ -90,9 +92,13 @@ def impl(case):
         rows, err, ev = [], type(e).__name__, None
     tr = Transitions(trajectory=None, diff_trajectory=None, sites=_Sites(), events=ev,
                      states=states, inner_states=inner)
+    guard = synth.InputGuard(states=states, inner=inner)
     prev = tr.states_prev().T.tolist()
     nxt = tr.states_next().T.tolist()
-    return {'rows': rows, 'error': err, 'prev': prev, 'next': nxt}
+    changed = guard.changed()
+    if not (np.array_equal(states, np.array(case['outer'], dtype=int).T) and np.array_equal(inner, np.array(case['inner'], dtype=int).T)):
+        changed = sorted(set(changed) | {'state arrays (by _calculate_transition_events)'})
+    return {'rows': rows, 'error': err, 'prev': prev, 'next': nxt, 'inputs_changed': changed}
 
 
 def _has_change(case):
@@ -101,7 +107,7 @@ def _has_change(case):
 
 
 def oracle(case, out):
-    fs = []
+    fs = synth.inputs_clause(out, '_calculate_transition_events / states_prev / states_next')
     if out.get('error') and 'rows' not in out:
         return [('events/harness-error', out.get('msg', ''))]
     want = []
